@@ -1164,6 +1164,8 @@ func genSrvMsg(p *prng, thorough bool, w *bufio.Writer) {
 				case 3:
 					i, j := p.intn(len(hs)), p.intn(len(hs))
 					hs[i], hs[j] = hs[j], hs[i]
+				case 4:
+					hs[2].v = "" // :path present but empty
 				}
 			} else {
 				for i := 1 + p.intn(6); i > 0; i-- {
